@@ -333,6 +333,38 @@ def runChunks (cfg : Cfg α) (st : State α) (fr : Nat → Frame α) : List Nat 
     let r := call cfg st none fr m
     r :: runChunks cfg r.st (fun j => fr (m + j)) ms
 
+/-! ## calls that may raise: `forward` commits the carried buffers only after every stage succeeded -/
+
+/-- one request to `forward`; `ok = false` stands for arguments on which torch raises somewhere inside the call
+(per-call covariance of the wrong type / dtype / shape, mismatched ranks, malformed `init_state`, …) -/
+structure CallReq (α : Type) where
+  F : Nat
+  fr : Nat → Frame α
+  init : Option (Init α)
+  ok : Bool
+
+/-- `forward` with its error path: the result or the exception, and the carried state afterwards —
+a call that raises leaves the object exactly as it was -/
+def callE (cfg : Cfg α) (st : State α) (q : CallReq α) : Except String (Result α) × State α :=
+  if q.ok then
+    let r := call cfg st q.init q.fr q.F
+    (.ok r, r.st)
+  else (.error "raise", st)
+
+/-- a history of requests on one object, the caller catching every exception and going on -/
+def runReqs (cfg : Cfg α) : State α → List (CallReq α) → List (Except String (Result α)) × State α
+  | st, [] => ([], st)
+  | st, q :: qs =>
+    let (r, st') := callE cfg st q
+    let (rs, stf) := runReqs cfg st' qs
+    (r :: rs, stf)
+
+/-- the successful results of a history, in order -/
+def okResults : List (Except String (Result α)) → List (Result α)
+  | [] => []
+  | .ok r :: rs => r :: okResults rs
+  | .error _ :: rs => okResults rs
+
 /-! ## `_check`: rank lifting -/
 
 /-- `_check`: `(H) → (1,1,H)`, `(F,H) → (1,F,H)`, rank 3 unchanged -/
